@@ -2,7 +2,8 @@
    and the outgoing queue of CqlClientConnection.Send), modelled as it is.  DEFINITIONS ONLY.
 
    Sequential semantics: one call of a Go method = one [step].  Things happen in the order the code does them:
-     onOutgoingFrameEnqueued : closed? ; borrow (managed) ; len==max? / found? ; insert + arm timer ;
+     onOutgoingFrameEnqueued : closed? ; borrow (managed) ; RLock: len==max? / found? ; Lock: closed? len==max? found?
+                               ; insert + arm timer ;
                                on refusal give the borrowed id back (ignoring a failed release)
      onIncomingFrameReceived : closed? ; lookup ; if last: delete, then (managed) release - a failed release
                                returns BEFORE the frame is handed over ; then inFlightRequest.onFrameReceived
@@ -153,7 +154,16 @@ Definition check (s : state) (id : Z) : option errkind :=
   else if memZ id (keys (inflight s)) then Some EInUse
   else None.
 
-(* addInFlight + startTimeout (map assignment: an existing entry under the same key would be replaced) *)
+(* the same two tests repeated by addInFlight under the write lock (fix e71cde5): a sender is registered only if BOTH
+   the RLock-ed check and, later, the Lock-ed check pass; a refusal by either goes through the same path
+   (request context cancelled, borrowed id given back, header reset). Sequentially nothing can change in between. *)
+Definition check2 (s : state) (id : Z) : option errkind :=
+  match check s id with
+  | Some e => Some e           (* refused by the RLock-ed check *)
+  | None => check s id         (* addInFlight: Lock; len == max? found? *)
+  end.
+
+(* addInFlight's insertion + startTimeout (map assignment: an existing entry under the same key would be replaced) *)
 Definition register (s : state) (id : Z) (m : bool) : state :=
   mkState (cfgN s) (cfgP s) (cfgT s) (pool s) (remove_key id (inflight s) ++ [(id, new_req s id m)]) (finished s)
           (closed s) (now s) (events s) (handled s) (outq s) (next_rid s + 1).
@@ -169,13 +179,13 @@ Definition enqueue (s : state) (k : Z) : state * out :=
     | [] => (s, ORefused ENoId)
     | id :: rest =>
         let s1 := set_pool s rest in
-        match check s1 id with
+        match check2 s1 id with
         | None => (register s1 id true, OAccepted id)
         | Some e => (match release s1 id with Some s2 => s2 | None => s1 end, ORefused e)
         end
     end
   else
-    match check s k with
+    match check2 s k with
     | None => (register s k false, OAccepted k)
     | Some e => (s, ORefused e)
     end.
